@@ -17,7 +17,7 @@ RULE = ("one evaluation = one attribute object (all message kinds; every subset 
 ASSUMPTIONS = ["fields the sender left unset (None / empty mention list) may come back as protobuf defaults",
                "floats are compared after rounding to the protobuf field width",
                "field types are taken from the repository's generated protobuf descriptors (data, not logic)"]
-REQUIRED = ["entity_recompose_cases", "entity_recompose_ok", "objects", "peer_payloads", "entity_roundtrips", "subsets_enumerated", "fields_compared", "nested_quoted",
+REQUIRED = ["lists_edited_in_place", "composed_with_omitted_arguments", "entity_recompose_cases", "entity_recompose_ok", "objects", "peer_payloads", "entity_roundtrips", "subsets_enumerated", "fields_compared", "nested_quoted",
             "kind:image", "kind:video", "kind:audio", "kind:document", "kind:sticker", "kind:location", "kind:contact",
             "kind:extended_text", "kind:protocol", "kind:sender_key_distribution_message", "kind:conversation"]
 TIMEOUT = {"quick": 900, "thorough": 7200}
@@ -136,7 +136,36 @@ def gen_obj(r, clsname, protoname, subset=None, depth=0, stats=None):
             kw[name] = gen_obj(r, "MessageKeyAttributes", "MessageKey", depth=depth, stats=stats)
         else:
             kw[name] = value_for(r, pcls.DESCRIPTOR.fields_by_name[name], name)
-    return cls(**kw)
+    # an application leaves out what it does not set, or passes None for it: both ways occur
+    omit = r.random() < 0.5
+    has_default = set(p.name for p in list(inspect.signature(cls.__init__).parameters.values())[1:] if p.default is not inspect.Parameter.empty)
+    obj = cls(**({k: v for k, v in kw.items() if not (v is None and k in has_default)} if omit else kw))
+    if stats is not None:
+        stats["omitted_kwargs"] = stats.get("omitted_kwargs", 0) + (1 if omit else 0)
+        for name in order:
+            if name not in chosen:
+                v = getattr(obj, name, None)
+                if v:
+                    # (the library turns some unset fields into their empty default: '' / b'' / 0 / False / []; a non-empty value
+                    # nobody set is something else)
+                    stats.setdefault("unset_with_value", []).append("%s.%s = %s" % (clsname, name, short(v)))
+    _BUILT.append(obj)
+    del _BUILT[:-50]
+    return obj
+
+
+_BUILT = []
+
+
+def edit_in_place(r, acc):
+    """What an application may do with an object it composed earlier: add to its list-valued fields in place. Objects composed
+    later must not notice."""
+    for o in _BUILT[-6:]:
+        for n in public_props(o):
+            v = getattr(o, n, None)
+            if isinstance(v, list):
+                v.append("49%s@s.whatsapp.net" % gen.s_from(r, gen.DIGITS, 8))
+                acc.count("lists_edited_in_place")
 
 
 def gen_message(r, kind=None, subset=None, depth=0, stats=None, with_skdm=None):
@@ -233,6 +262,10 @@ def check_object(acc, r, kind, msg, tag, subset_desc, stats):
     except Exception as e:  # noqa
         acc.violation("parse-raises:%s:%s" % (kind, type(e).__name__), "protobytes_to_message raised %r on the library's own payload" % (e,), w)
         return None
+    if stats.get("unset_with_value"):
+        acc.violation("unset-field-has-value:%s" % stats["unset_with_value"][0].split(" = ")[0], "a field the sender did not set carries a value in the composed object: %s" % stats["unset_with_value"][:3], w)
+        return None
+    acc.count("composed_with_omitted_arguments", 1 if stats.get("omitted_kwargs") else 0)
     counters = {}
     d = cmp_attrs(msg, back, "msg", counters)
     acc.count("fields_compared", counters.get("fields", 0))
@@ -241,6 +274,8 @@ def check_object(acc, r, kind, msg, tag, subset_desc, stats):
         acc.violation("field-lost-or-changed:%s" % mech(d), "a field the sender set does not survive: %s" % d, w)
     else:
         acc.count("object_ok")
+    if acc.counters.get("objects", 0) % 9 == 0:
+        edit_in_place(r, acc)
     return data
 
 
